@@ -380,8 +380,12 @@ def sec_caller(run, rng, case, tmp, classes):
     a2 = [int(x) for x in r2.get_index_of(lons, lats)]
     if _snap(o) != s_o or (_snap(lons), _snap(lats)) != s_l or _snap(rd) != s_rd:
         run.oracle_failure(dict(case, what="region-caller-objects"), "from_origins / get_index_of / from_dict changed an array or dictionary the caller gave")
-    rd["polygons"].reverse()
-    rd["dh"] = 1.0
+    if isinstance(rd, dict):                      # edit whatever the dictionary holds (its members may be named differently)
+        for k_, v_ in list(rd.items()):
+            if isinstance(v_, list):
+                v_.reverse()
+            elif isinstance(v_, float):
+                rd[k_] = v_ * 2 + 1.0
     a3 = [int(x) for x in r.get_index_of(lons, lats)]
     a4 = [int(x) for x in r2.get_index_of(lons, lats)]
     if not (a == a2 == a3 == a4):
@@ -389,7 +393,8 @@ def sec_caller(run, rng, case, tmp, classes):
     # what the region / a forecast hands OUT is the caller's to edit: origins(), midpoints(), get_bbox(), get_longitudes() …
     from csep.core.forecasts import GriddedForecast
     before = (_snap(r.to_dict()), a)
-    handed = {"origins()": lambda: r.origins(), "midpoints()": lambda: r.midpoints(), "to_dict()['polygons']": lambda: r.to_dict()["polygons"]}
+    handed = {"origins()": lambda: r.origins(), "midpoints()": lambda: r.midpoints(),
+              "to_dict() lists": lambda: [v_ for v_ in r.to_dict().values() if isinstance(v_, list)][0]}
     try:
         gf = GriddedForecast(data=numpy.ones((len(cells), 1)), region=r, magnitudes=numpy.array([4.0]), name="g")
         handed["forecast.get_longitudes()"] = lambda: gf.get_longitudes()
@@ -521,7 +526,143 @@ def run_case(run, sub, sub_seed, tmp, classes):
 
 def run_all(run, rng, thorough, tmp, classes):
     plan = [("shapes", 150 if thorough else 16), ("extremes", 400 if thorough else 36), ("caller", 100 if thorough else 12),
-            ("state", 40 if thorough else 6)]
+            ("state", 40 if thorough else 6), ("round7", 300 if thorough else 30)]
+    define_user_classes()
     for sub, n in plan:
         for _ in range(n):
             run_case(run, sub, rng.randrange(2 ** 31), tmp, classes)
+
+
+# ----------------------------------------------------------------------------- round 7: classes (h) … (m)
+USER_CLASSES = {}
+
+
+def define_user_classes():
+    """(j) the calling program extends library result classes under the SAME name (the usual way to add a custom plot) and defines
+    result classes of its own; they stay alive for the whole run, so every loader meets them in `__subclasses__`"""
+    import csep.models as M
+    if USER_CLASSES:
+        return USER_CLASSES
+    b = _b()
+    classes, _, _ = b.extract_tables()
+    for name in classes:
+        lib = getattr(M, name)
+
+        def __init__(self, *a, _lib=lib, **kw):
+            _lib.__init__(self, *a, **kw)
+            self.status = "made-by-the-user-class"            # visible if a loader builds this class instead of the library's
+            if isinstance(self.test_distribution, list):
+                self.test_distribution = sorted(x for x in self.test_distribution if isinstance(x, (int, float)) and x == x)
+        USER_CLASSES[name] = type(name, (lib,), {"__init__": __init__, "__module__": "user_program", "plot": lambda self, *a, **k: "custom"})
+    USER_CLASSES["MyOwnResult"] = type("MyOwnResult", (M.EvaluationResult,), {"__module__": "user_program"})
+    return USER_CLASSES
+
+
+def sec_round7(run, rng, case, tmp, classes):
+    import copy
+    import decimal
+    import pickle
+    import csep
+    from csep import models as M
+    from csep.core.repositories import FileSystem
+    from csep.core.regions import CartesianGrid2D
+    b = _b()
+    users = define_user_classes()
+    clsname = rng.choice(sorted(classes))
+    lib = getattr(M, clsname)
+    n = rng.choice([0, 1, 2, 5])                                                           # (m)
+    td = [rng.choice([3.5, -1.0, 2.0, math.inf, 0.25, 7]) for _ in range(n)]
+    res = _mk(clsname, test_distribution=list(td), observed_statistic=rng.choice([1.5, None, -math.inf]), status=rng.choice(["normal", ""]))
+    run.case(case, ("round7", clsname, n))
+    p = os.path.join(tmp, "r7.json")
+
+    def identity(how, loaded):
+        if not isinstance(loaded, str) and type(loaded) is not lib:
+            run.oracle_failure(dict(case, what="same-name-user-class", loader=how),
+                               f"{how}: a {clsname} written by the library was loaded as {type(loaded).__module__}.{type(loaded).__name__} "
+                               f"(a class of the calling program with the same name), not as csep.models.{clsname}")
+    # ---- (j) same-name user classes exist in the interpreter
+    csep.write_json(res, p)
+    for how, fn in (("load_evaluation_result", lambda: csep.load_evaluation_result(p)), ("load_json(csep.models.Class)", lambda: csep.load_json(lib, p)),
+                    ("FileSystem.load", lambda: FileSystem(url=p).load(lib)), ("from_dict(to_dict())", lambda: lib.from_dict(res.to_dict()))):
+        loaded = b._try(fn)
+        _judge(run, dict(case, what="same-name-user-class"), how, loaded, res)
+        identity(how, loaded)
+    own = users["MyOwnResult"](test_distribution=list(td), name="own", observed_statistic=2.5, quantile=0.5, status="s", obs_catalog_repr="",
+                               sim_name="a", obs_name="b", min_mw=4.0)
+    po = os.path.join(tmp, "r7_own.json")
+    back = b._try(lambda: (csep.write_json(own, po), csep.load_json(users["MyOwnResult"], po))[1])
+    if isinstance(back, str) or type(back) is not users["MyOwnResult"] or not b.same(b.py_norm(back.test_distribution, td=True), b.py_norm(td)):
+        run.oracle_failure(dict(case, what="user-result-class"), f"a result class of the calling program through write_json -> load_json(Class): {back!r}")
+    # ---- (h) copies / pickles before use
+    for how, f in (("copy.copy", copy.copy), ("copy.deepcopy", copy.deepcopy), ("pickle", lambda x: pickle.loads(pickle.dumps(x)))):
+        r2 = b._try(lambda: f(res))
+        if isinstance(r2, str):
+            run.count(f"round7:copy-form-unavailable:{how}")
+            continue
+        loaded = b._try(lambda: (csep.write_json(r2, p), csep.load_evaluation_result(p))[1])
+        _judge(run, dict(case, what="copy-before-use", form=how), f"{how}(result) -> write_json -> load_evaluation_result", loaded, res)
+        identity(how, loaded)
+    dh = rng.choice([0.1, 0.25, 0.5])
+    cells = [(i, j) for i in range(rng.randint(2, 4)) for j in range(rng.randint(2, 3))]
+    rng.shuffle(cells)
+    lon0, lat0 = rng.choice([-30.0, 100.2, 179.0]), rng.choice([-20.0, 41.5])
+    o = numpy.array([(lon0 + dh * i, lat0 + dh * j) for i, j in cells])
+    r = CartesianGrid2D.from_origins(o, dh=dh, name="r7")
+    probes = [(x + dh / 2, y + dh / 2) for x, y in o.tolist()] + [(float(o[0, 0]), float(o[0, 1])), (lon0 - dh, lat0)]
+    a = [b.locate(r, q) for q in probes]
+    for how, f in (("copy.copy", copy.copy), ("copy.deepcopy", copy.deepcopy), ("pickle", lambda x: pickle.loads(pickle.dumps(x)))):
+        c = b._try(lambda: [b.locate(CartesianGrid2D.from_dict(f(r).to_dict()), q) for q in probes])
+        c2 = b._try(lambda: [b.locate(f(CartesianGrid2D.from_dict(r.to_dict())), q) for q in probes])
+        if c != a or c2 != a:
+            run.oracle_failure(dict(case, what="copy-before-use", form=how), f"region {how} before / after the dictionary round trip indexes differently: {c} / {c2} vs {a}")
+    # ---- (i) state after a caught exception
+    rejected = 0
+    garbage = os.path.join(tmp, "r7_garbage.json")
+    open(garbage, "w").write('{"type": "CatalogNumberTestResult", "name": ')
+    for bad in (lambda: csep.load_evaluation_result(garbage), lambda: csep.load_evaluation_result(os.path.join(tmp, "missing.json")),
+                lambda: lib.from_dict({"name": "x"}), lambda: CartesianGrid2D.from_dict({"dh": dh}), lambda: CartesianGrid2D.from_dict({"polygons": [{"lon": 1}], "dh": dh}),
+                lambda: csep.write_json(_mk(clsname, test_distribution=3.5), p), lambda: FileSystem(url=p).save({"k": {1, 2}}),
+                lambda: csep.load_json(lib, garbage), lambda: r.get_index_of([lon0 - 50.0], [lat0])):
+        try:
+            bad()
+        except Exception:
+            rejected += 1
+    run.count("round7:rejected-calls", rejected)
+    loaded = b._try(lambda: (csep.write_json(res, p), csep.load_evaluation_result(p))[1])
+    _judge(run, dict(case, what="after-rejected-calls"), "write_json -> load_evaluation_result after rejected calls", loaded, res)
+    identity("after rejected calls", loaded)
+    c = b._try(lambda: [b.locate(CartesianGrid2D.from_dict(r.to_dict()), q) for q in probes])
+    if c != a or [b.locate(r, q) for q in probes] != a:
+        run.oracle_failure(dict(case, what="after-rejected-calls"), f"region round trip after rejected calls indexes differently: {c} vs {a}")
+    # ---- (k) global numeric state
+    with numpy.errstate(all="raise"), decimal.localcontext() as dctx:
+        dctx.prec = rng.randrange(2, 7)
+        loaded = b._try(lambda: (csep.write_json(res, p), csep.load_evaluation_result(p))[1])
+        _judge(run, dict(case, what="numeric-state"), f"write_json -> load_evaluation_result under numpy.errstate(all='raise'), decimal prec {dctx.prec}", loaded, res)
+        c = b._try(lambda: [b.locate(CartesianGrid2D.from_dict(r.to_dict()), q) for q in probes])
+        c3 = b._try(lambda: [b.locate((csep.write_json(r, p), csep.load_json(CartesianGrid2D, p))[1], q) for q in probes])
+        if c != a or c3 != a:
+            run.oracle_failure(dict(case, what="numeric-state"), f"region rebuilt under numpy.errstate(all='raise') / decimal prec {dctx.prec}: {c} / {c3} vs {a}")
+    # ---- (l) one object in two roles
+    p2 = os.path.join(tmp, "r7_b.json")
+    d = res.to_dict()
+    l1 = b._try(lambda: (csep.write_json(res, p), csep.write_json(res, p2), csep.load_evaluation_result(p), csep.load_evaluation_result(p2))[2:])
+    if isinstance(l1, str):
+        run.oracle_failure(dict(case, what="two-roles"), f"one result written to two files: {l1}")
+    else:
+        for x in l1:
+            _judge(run, dict(case, what="two-roles"), "one result written to two files", x, res)
+    two = b._try(lambda: (lib.from_dict(d), lib.from_dict(d)))
+    if not isinstance(two, str):
+        if two[0] is two[1]:
+            run.oracle_failure(dict(case, what="two-roles"), "from_dict of one dictionary twice returned the same object")
+        _judge(run, dict(case, what="two-roles"), "from_dict of one dictionary, second object", two[1], res)
+    rd = r.to_dict()
+    ra, rb = CartesianGrid2D.from_dict(rd), CartesianGrid2D.from_dict(rd)
+    if ra is rb or [b.locate(ra, q) for q in probes] != a or [b.locate(rb, q) for q in probes] != a:
+        run.oracle_failure(dict(case, what="two-roles"), "two regions rebuilt from one dictionary object index differently / are one object")
+    run.count("round7:done")
+
+
+SECTIONS["round7"] = sec_round7
